@@ -2,6 +2,11 @@
 
 package p9p
 
+import (
+	"context"
+	"net"
+)
+
 // Observational hooks for the verification harness in /verif.
 // Compiled only with -tags verif; they never change behaviour.
 
@@ -54,4 +59,22 @@ func VerifAllocateTag(taken []Tag, hint Tag) (Tag, error) {
 		m[t] = nil
 	}
 	return allocateTag(nil, m, hint)
+}
+
+// VerifCSession is CSession with a chosen msize proposal instead of
+// DefaultMSize: the same channel, handshake and transport.
+func VerifCSession(ctx context.Context, conn net.Conn, msize int) (Session, error) {
+	ch := newChannel(conn, codec9p{}, msize)
+
+	version, err := clientnegotiate(ctx, ch, DefaultVersion)
+	if err != nil {
+		return nil, err
+	}
+
+	return &client{
+		version:   version,
+		msize:     ch.MSize(),
+		ctx:       ctx,
+		transport: newTransport(ctx, ch),
+	}, nil
 }
